@@ -1499,8 +1499,12 @@ func specialC19(seed int64, thorough bool) *Special {
 func reentrantAfterCancel(sp *Special, g *Gen, seed int64, n int) {
 	for r := 0; r < n; r++ {
 		nd := 4 + g.R.Intn(30)
+		dropEvery := 3
 		if r%2 == 0 {
-			nd = 130 + g.R.Intn(60) // a stored block is flushed (and the channel closed) while the first segment is copied
+			// more than 128 survivors in the first input: a stored block is flushed (and the channel
+			// closed at the first destination write) while the first segment is still being copied
+			nd = 200 + g.R.Intn(60)
+			dropEvery = 12
 		}
 		b := g.Batch(BatchOpts{NDocs: nd, NFields: 3})
 		b2 := g.Batch(BatchOpts{NDocs: 3 + g.R.Intn(10), NFields: 3, IDPrefix: "x"})
@@ -1519,14 +1523,18 @@ func reentrantAfterCancel(sp *Special, g *Gen, seed int64, n int) {
 			return out
 		}
 		var clean bytes.Buffer
-		Current.Merger([]segment.Segment{seg, seg2}, []*roaring.Bitmap{bitmapOf(g.subset(nd, 3)), nil}, 16).WriteTo(&clean, nil)
-		for _, k := range []int{0, 1, clean.Len() / 4, clean.Len() / 2} {
+		Current.Merger([]segment.Segment{seg, seg2}, []*roaring.Bitmap{bitmapOf(g.subset(nd, dropEvery)), nil}, 16).WriteTo(&clean, nil)
+		points := []int{0, 1, 17}
+		for i := 1; i < 8; i++ {
+			points = append(points, i*clean.Len()/8)
+		}
+		for _, k := range points {
 			cw := &closeAt{k: k, ch: make(chan struct{})}
 			if k == 0 {
 				close(cw.ch)
 				cw.closed = true
 			}
-			Current.Merger([]segment.Segment{seg, seg2}, []*roaring.Bitmap{bitmapOf(g.subset(nd, 3)), nil}, 16).WriteTo(cw, cw.ch)
+			Current.Merger([]segment.Segment{seg, seg2}, []*roaring.Bitmap{bitmapOf(g.subset(nd, dropEvery)), nil}, 16).WriteTo(cw, cw.ch)
 			for t := 0; t < 4; t++ {
 				d1, d2 := uint64(g.R.Intn(nd)), uint64(g.R.Intn(nd))
 				want1, want2 := plain(d1), plain(d2)
